@@ -256,15 +256,16 @@ class SchedulePool:
 
     events: codes i (Dispatch task i), 10+i (Complete(i): the result is computed NOW),
     20+i (Deliver(i): the result iterator yields task i's value NOW).  The object is deliberately
-    dumb: it delivers what the schedule says, so schedules generated under Env = "imap_unordered"
-    make it deliver out of order.
+    dumb: imap() delivers what the schedule says, so schedules generated under Env = "imap_unordered"
+    make it deliver out of order; imap_unordered() keeps the schedule's timing but delivers in
+    completion order; map() returns the list in task order.
     """
 
     def __init__(self, n, events):
         self.n, self.events = n, list(events)
         self.completion_order, self.delivery_order, self.used = [], [], []
 
-    def _run(self, func, iterable):
+    def _run(self, func, iterable, unordered=False):
         tasks = list(iterable)
         if len(tasks) != self.n:
             raise MachineryError(f"schedule is for {self.n} tasks, the client submitted {len(tasks)}")
@@ -279,6 +280,8 @@ class SchedulePool:
                 results[i] = func(tasks[i - 1])
                 self.completion_order.append(i)
             elif kind == 2:
+                if unordered:  # imap_unordered called by the client: first completed, first delivered
+                    i = next(j for j in self.completion_order if j not in self.delivery_order)
                 self.delivery_order.append(i)
                 yield results[i]
             else:
@@ -290,7 +293,7 @@ class SchedulePool:
 
     def imap_unordered(self, func, iterable, chunksize=1):
         self.used.append("imap_unordered")
-        return self._run(func, iterable)
+        return self._run(func, iterable, unordered=True)
 
     def map(self, func, iterable, chunksize=None):  # Pool.map: a list in task order, whatever the completion order
         self.used.append("map")
@@ -575,24 +578,32 @@ def main(tier):
     chk = Check(PID, tier)
     quick = tier != "thorough"
     t_start = time.time()
-    # ---- 1. Layer B: the pool contract, exhaustively
-    r_ord = run_tlc("PoolImap", "PoolImap", workers=TLC_WORKERS, timeout=300)
+    # ---- 1. Layer B: the pool contract, exhaustively; 2. scenario table  (independent models, run side by side)
+    from concurrent.futures import ThreadPoolExecutor
+
+    w = max(2, TLC_WORKERS // 2)
+    models = dict(
+        ord=lambda: run_tlc("PoolImap", "PoolImap", workers=w, timeout=300),
+        un=lambda: run_tlc("PoolImap", "PoolImap_unordered", workers=1, timeout=300, expect_violation=True),
+        sched=lambda: run_tlc("PoolImap", "PoolImap_sched", workers=w, timeout=300),
+        unsched=lambda: run_tlc("PoolImap", "PoolImap_unordered_sched", workers=w, timeout=300),
+        scen=lambda: run_tlc("MIndexTrace", "MIndexScen" if quick else "MIndexScen_thorough", workers=w, timeout=300),
+    )
+    with ThreadPoolExecutor(len(models)) as ex:
+        futs = {k: ex.submit(f) for k, f in models.items()}
+        tlc = {k: f.result() for k, f in futs.items()}  # re-raises MachineryError
+    r_ord, r_un, r_s, r_us, r_sc = (tlc[k] for k in ("ord", "un", "sched", "unsched", "scen"))
     chk.add_tlc("PoolImap(imap)", r_ord, "n<=4 tasks x w<=3 workers, every schedule under the Pool.imap contract: TypeOK, WorkerBound, PrefixInOrder, ResultInOrder, Terminates (WF)")
     if r_ord.distinct < 200:
         raise MachineryError(f"PoolImap explored only {r_ord.distinct} states")
-    r_un = run_tlc("PoolImap", "PoolImap_unordered", workers=1, timeout=300, expect_violation=True)
     chk.add_tlc("PoolImap(imap_unordered)", r_un, "non-vacuity witness: ResultInOrder must be refuted under the imap_unordered contract")
     chk.control("tlc-refutes-ResultInOrder-under-imap_unordered", r_un.violated == "ResultInOrder", f"violated={r_un.violated}")
-    r_s = run_tlc("PoolImap", "PoolImap_sched", workers=TLC_WORKERS, timeout=300)
     scheds = parse_printed_json(r_s.output, "SCHED")
     chk.add_tlc("PoolImap(schedules)", r_s, f"history variable: every complete imap schedule emitted ({len(scheds)})")
-    r_us = run_tlc("PoolImap", "PoolImap_unordered_sched", workers=TLC_WORKERS, timeout=300)
     unordered = parse_printed_json(r_us.output, "SCHED")
     chk.add_tlc("PoolImap(unordered schedules)", r_us, f"every complete imap_unordered schedule, n<=3 ({len(unordered)}), for the negative control")
     if len(scheds) < 2000 or len({(s["n"], s["w"], tuple(s["ev"])) for s in scheds}) != len(scheds) or len(unordered) < 500:
         raise MachineryError(f"schedule emission incomplete: {len(scheds)} ordered, {len(unordered)} unordered")
-    # ---- 2. scenario table
-    r_sc = run_tlc("MIndexTrace", "MIndexScen" if quick else "MIndexScen_thorough", workers=TLC_WORKERS, timeout=300)
     scen = parse_printed_json(r_sc.output, "SCEN")
     chk.add_tlc("MIndexTrace(scenario table)", r_sc, "lattice system x texture class x size x repetition with the relations to apply; theory scenarios; ASSUMEs on the thresholds")
     scen.sort(key=lambda s: (s["kind"], s["sysno"], s.get("texture", ""), s.get("n", 0), s.get("rep", 0)))
